@@ -68,6 +68,9 @@ func VerifC09Rfp() {
 	vapi.Assert(got <= len(stream), "C09: never more than the peer sent")
 	vapi.Assert(vapi.BytesEq(buf[:got], stream[:got]), "C09: the buffer holds exactly the consumed prefix, byte for byte")
 	vapi.Assert(len(pc.Writes) == 0 && len(sc.Writes) == 0, "C09: nothing is written to the peer while reading the first packet")
+	if !sc.Closed {
+		vapi.Assert(sc.ReadDeadline.IsZero(), "C09: no read deadline is left armed on a connection that lives on (relayed or authenticated)")
+	}
 	if err != nil && redir {
 		vapi.Assert(!sc.Closed, "C09: a connection to be redirected is left open")
 		vapi.Reach("rfp-redirect")
